@@ -87,7 +87,8 @@ def check(tr, ref, tname, n_updates, where):
         if not exact and abs(tot) <= 64 * eps * sum(abs(w) for w in raw.values()):
             return      # cancels to rounding level: zero or not depends on the summation order of the float type
         scale = max(abs(w) for w in raw.values()) / abs(tot)
-        ntol = 0 if exact else 64 * eps * max(1, scale)
+        cond = sum(abs(w) for w in raw.values()) / abs(tot)
+        ntol = 0 if exact else 64 * eps * max(1, scale) * (1 + cond)
         s = sum(F(float(v)) if not exact else v for v in norm.values())
         if abs(s - 1) > ntol * len(norm):
             bad('norm-sum', f"normalised values {norm} add up to {float(s)!r}, not 1 (raw {got})")
